@@ -20,6 +20,7 @@ import (
 	"os"
 	"path/filepath"
 
+	"github.com/mitchellh/copystructure"
 	"github.com/pkg/errors"
 
 	chartutil "helm.sh/helm/v4/pkg/chart/v2/util"
@@ -63,7 +64,15 @@ func validateValuesFile(valuesPath string, overrides map[string]interface{}) err
 	// We could change that. For now, though, we retain that strategy, and thus can
 	// coalesce tables (like reuse-values does) instead of doing the full chart
 	// CoalesceValues
-	coalescedValues := chartutil.CoalesceTables(make(map[string]interface{}, len(overrides)), overrides)
+	//
+	// CoalesceTables merges into its first argument, nested tables included, so this works on
+	// a deep copy: the overrides belong to the caller and are used again by the other rules.
+	coalescedValues := map[string]interface{}{}
+	if overridesCopy, err := copystructure.Copy(overrides); err != nil {
+		return errors.Wrap(err, "unable to copy the supplied values")
+	} else if oc, ok := overridesCopy.(map[string]interface{}); ok && oc != nil {
+		coalescedValues = oc
+	}
 	coalescedValues = chartutil.CoalesceTables(coalescedValues, values)
 
 	ext := filepath.Ext(valuesPath)
